@@ -163,7 +163,7 @@ theorem opsx_Keeper_getInitialUptimeGrowthOppositeDirectionOfLastTraversalForTic
 
 /-- B — `Keeper.UpdatePoolUptimeAccumulatorsToNow`: `CLInc.sync` -/
 theorem opsx_Keeper_UpdatePoolUptimeAccumulatorsToNow_pinned : Gen.CLKeeperOps.opsx_Keeper_UpdatePoolUptimeAccumulatorsToNow =
-    ["getPoolById(v0,v1,v2)", "return(error)"] := by decide
+    ["getPoolById(v0,v1,v2)", "updatePoolUptimeAccumulatorsToNowWithPool(v0,v1,v3)", "return(_)"] := by decide
 
 /-- B — `Keeper.updatePoolUptimeAccumulatorsToNowWithPool`: `CLInc.sync` -/
 theorem opsx_Keeper_updatePoolUptimeAccumulatorsToNowWithPool_pinned : Gen.CLKeeperOps.opsx_Keeper_updatePoolUptimeAccumulatorsToNowWithPool =
@@ -211,12 +211,14 @@ theorem opsx_Keeper_GetUptimeGrowthInsideRange_pinned : Gen.CLKeeperOps.opsx_Kee
     ["getPoolById(v0,v1,v2)", "GetUptimeAccumulatorValues(v0,v1,v2)", "GetCurrentTick(v5)",
      "=(v8,v5.GetCurrentTick())", "GetTickInfo(v0,v1,v2,v3)", "GetTickInfo(v0,v1,v2,v4)",
      "getUptimeTrackerValues(v9.UptimeTrackers.List)", "getUptimeTrackerValues(v10.UptimeTrackers.List)", "<(v8,v3)",
-     "if", "return(error)", "else", "<(v8,v4)", "if", "osmoutils.SubDecCoinArrays(v7,v12)", "return(error)", "else",
-     "return(error)", "end"] := by decide
+     "if", "osmoutils.SafeSubDecCoinArrays(v11,v12)", "return(_)", "else", "<(v8,v4)", "if",
+     "osmoutils.SubDecCoinArrays(v7,v12)", "osmoutils.SafeSubDecCoinArrays(v13,v11)", "return(_)", "else",
+     "osmoutils.SafeSubDecCoinArrays(v12,v11)", "return(_)", "end"] := by decide
 
 /-- B — `Keeper.GetUptimeGrowthOutsideRange`: `CLInc.outsideAll` -/
 theorem opsx_Keeper_GetUptimeGrowthOutsideRange_pinned : Gen.CLKeeperOps.opsx_Keeper_GetUptimeGrowthOutsideRange =
-    ["GetUptimeAccumulatorValues(v0,v1,v2)", "GetUptimeGrowthInsideRange(v0,v1,v2,v3,v4)", "return(error)"] := by decide
+    ["GetUptimeAccumulatorValues(v0,v1,v2)", "GetUptimeGrowthInsideRange(v0,v1,v2,v3,v4)",
+     "osmoutils.SubDecCoinArrays(v5,v7)", "return(_)"] := by decide
 
 /-- B — `Keeper.initOrUpdatePositionUptimeAccumulators`: `CLInc.updPosition` / `CLInc.updOne` -/
 theorem opsx_Keeper_initOrUpdatePositionUptimeAccumulators_pinned : Gen.CLKeeperOps.opsx_Keeper_initOrUpdatePositionUptimeAccumulators =
@@ -345,7 +347,7 @@ theorem opsx_Keeper_crossTick_pinned : Gen.CLKeeperOps.opsx_Keeper_crossTick =
 /-- B — `Keeper.GetTickInfo`: `CLFees.tickOut` / `CLInc.tickTr` (stored value, or the initial one for a tick that is not stored) -/
 theorem opsx_Keeper_GetTickInfo_pinned : Gen.CLKeeperOps.opsx_Keeper_GetTickInfo =
     ["KVStore(v1,v0.storeKey)", "=(v7,{})", "types.KeyTick(v2,v3)", "osmoutils.Get(v6,v8,&v7)", "!", "if",
-     "return(error)", "end", "return(v7,v5)"] := by decide
+     "makeInitialTickInfo(v0,v1,v2,v3)", "return(_)", "end", "return(v7,v5)"] := by decide
 
 /-- B — `Keeper.makeInitialTickInfo`: `CLFees.initialOut` / `CLInc.initialTr`, zero gross / net -/
 theorem opsx_Keeper_makeInitialTickInfo_pinned : Gen.CLKeeperOps.opsx_Keeper_makeInitialTickInfo =
